@@ -88,6 +88,12 @@ class Task:
             return out
         except Exception as e:  # machinery crash: never a violation
             tb = ''.join(traceback.format_exception(e))
+            if type(e).__module__.startswith('hidc.') and type(e).__name__.endswith('Error') and 'InternalCompilerError' != type(e).__name__:
+                # a diagnostic of the real compiler escaped a contract: every program a contract compiles without expecting a diagnostic is a
+                # valid program by construction (README), so the compiler under test rejects a valid program
+                return [Result(f'{self.label or self.func}/valid-program-accepted', FAILED, 'driver', time.time() - t0, tuple(sorted(set(self.props) | {'C10'})),
+                               {'message': f'the compiler rejects a valid program used by this contract: {type(e).__name__}: {e}', 'formula': 'programs the contracts compile are accepted',
+                                'replay': {'reproduced': True, 'how': 'real pipeline on the contract\'s program', 'observed': tb[-800:]}})]
             if type(e).__name__ == 'AsmSyntaxError' and 'compile_hid' in tb:
                 # ... except when what crashed is reading the text the real compiler emitted for a whole program: that text is then not
                 # well-formed by the stated assembler grammar (C10 "complete assembly the assembler accepts", C13 "always well-formed")
